@@ -42,6 +42,9 @@ func genC19(r *simrt.Rand, tier string, idx int) *hx.Program {
 	p.P["enabled"] = int64(r.Intn(2)) // what the operator asks for
 	p.P["interval_s"] = []int64{0, 3600, 86400}[r.Intn(3)]
 	p.P["envform"] = int64(r.Intn(3)) // how "false"/"true" is spelled in the environment
+	if r.Pct(20) {
+		p.P["idfault"] = int64(1 + r.Intn(2)) // disk fault: the instance id file cannot be written (1) / is empty and read-only (2)
+	}
 	n := 4 + r.Intn(12)
 	for i := 0; i < n; i++ {
 		p.Ops = append(p.Ops, hx.Op{K: pickWeighted(r, c19mix), A: []int64{int64(r.Intn(8)), int64(r.Intn(8))}})
@@ -154,9 +157,20 @@ func execC19(t *testing.T, prog *hx.Program, dec *simrt.Decider, verbose bool) *
 			return c
 		}
 		n := h.nodes[0]
+		faulted := false
 		up := func() bool {
 			if n.up {
 				return true
+			}
+			if f := prog.Param("idfault", 0); f != 0 && !faulted {
+				faulted = true
+				os.MkdirAll(n.dir, 0o755)
+				if f == 1 {
+					os.MkdirAll(filepath.Join(n.dir, ".instance_id"), 0o755) // a directory where the file should be
+				} else {
+					os.WriteFile(filepath.Join(n.dir, ".instance_id"), nil, 0o444)
+				}
+				h.s.Count("fault.instance_id_file")
 			}
 			if err := h.startNode(0); err != nil {
 				if len(h.s.Panics) == 0 {
